@@ -20,6 +20,7 @@ var models = map[string]intrinsic{}
 type markRec struct {
 	Seq    int
 	Serial int
+	Roots  []Value
 }
 
 func cstr(x *Exec, v Value, what string) string {
@@ -126,6 +127,7 @@ func init() {
 			m := x.newMap(x.eng.mapType)
 			m.Lazy = lz
 			lz.Map = m
+			lz.Birth = m.Serial
 			lz.Kind = 'm'
 			r := Iface{T: x.eng.mapType, V: m}
 			lz.Res = &r
@@ -201,7 +203,7 @@ func init() {
 			return x.ts.Or(x.ts.Not(a[0].(*Term)), a[1].(*Term))
 		},
 		"vMark": func(x *Exec, fr *frame, fn *ssa.Function, a []Value) Value {
-			x.marks = append(x.marks, markRec{Seq: x.writeSeq, Serial: x.serial})
+			x.marks = append(x.marks, markRec{Seq: x.writeSeq, Serial: x.serial, Roots: sliceVals(a[0])})
 			return x.ts.BV(64, uint64(len(x.marks)-1))
 		},
 		"vAssertUnchangedSince": func(x *Exec, fr *frame, fn *ssa.Function, a []Value) Value {
@@ -227,6 +229,54 @@ func init() {
 			}
 			x.globalsCheck(mk, label, names)
 			return nil
+		},
+		"vConcurrent": func(x *Exec, fr *frame, fn *ssa.Function, a []Value) Value {
+			// the engine decides the footprint of one execution; natively the function is
+			// run in two goroutines under the race detector
+			x.callValue(a[0], nil, fr)
+			return nil
+		},
+		"vAssertNoWritesSince": func(x *Exec, fr *frame, fn *ssa.Function, a []Value) Value {
+			mk := x.marks[cint(x, a[0], "mark")]
+			label := cstr(x, a[1], "label")
+			x.h.noteAssert(label)
+			model := map[interface{}]bool{}
+			for g, c := range x.globals {
+				if x.eng.isModelGlobal(g) {
+					x.reach(*c, model)
+				}
+			}
+			for _, w := range x.writeLog {
+				if w.Seq <= mk.Seq {
+					continue
+				}
+				if (w.Kind == "map" && model[w.M]) || (w.Kind == "elem" && model[w.A]) {
+					continue // side tables of the stdlib models
+				}
+				if w.Kind == "global" && x.eng.modelGlobalNames[w.Global] {
+					continue
+				}
+				if w.Kind == "global" || w.Serial <= mk.Serial {
+					what := w.Global
+					if w.Kind != "global" {
+						what = "a " + w.Kind + " object that existed before the operation"
+					}
+					x.violation("frame", label, "the operation writes "+what, x.pcModel())
+				}
+			}
+			return nil
+		},
+		"vShares": func(x *Exec, fr *frame, fn *ssa.Function, a []Value) Value {
+			ra := map[interface{}]bool{}
+			x.reach(a[0], ra)
+			rb := map[interface{}]bool{}
+			x.reach(a[1], rb)
+			for k := range ra {
+				if rb[k] {
+					return x.ts.tTrue
+				}
+			}
+			return x.ts.tFals
 		},
 		"vExpectPanic": func(x *Exec, fr *frame, fn *ssa.Function, a []Value) Value {
 			x.expectPanic = cbool(x, a[0], "flag")
@@ -341,9 +391,21 @@ func (x *Exec) frameCheck(markIdx int, label string, refs []Value) {
 	}
 	firstOld := map[ak]Value{}
 	var elems []ak
+	var inScope map[interface{}]bool
+	if len(mk.Roots) > 0 {
+		inScope = map[interface{}]bool{}
+		for _, r := range mk.Roots {
+			x.reach(r, inScope)
+		}
+	}
 	for _, w := range x.writeLog {
 		if w.Seq <= mk.Seq || w.Serial > mk.Serial {
 			continue
+		}
+		if inScope != nil {
+			if (w.Kind == "map" && !inScope[w.M]) || (w.Kind == "elem" && !inScope[w.A]) {
+				continue
+			}
 		}
 		switch w.Kind {
 		case "map":
@@ -638,4 +700,35 @@ func nil2str(x *Exec, f *Term) Value {
 		}
 	}
 	return x.ts.StrOf(string(b))
+}
+
+// reach collects the mutable objects (maps, backing arrays) reachable from v without
+// forcing unresolved lazy nodes.
+func (x *Exec) reach(v Value, seen map[interface{}]bool) {
+	switch c := v.(type) {
+	case *Lazy:
+		if c.Res != nil {
+			x.reach(*c.Res, seen)
+		}
+	case Iface:
+		x.reach(c.V, seen)
+	case *MapObj:
+		if c == nil || seen[c] {
+			return
+		}
+		seen[c] = true
+		for _, e := range c.Entries {
+			x.reach(e.V, seen)
+		}
+	case Slice:
+		if c.A == nil || c.Len == 0 {
+			return
+		}
+		if !seen[c.A] {
+			seen[c.A] = true
+		}
+		for i := 0; i < c.Len; i++ {
+			x.reach(c.A.E[c.Off+i], seen)
+		}
+	}
 }
